@@ -320,10 +320,15 @@ impl<'a> G<'a> {
         if nss < nst {
             bump(&mut self.c, "probe:pre_fewer_static_scalars");
         }
-        let ss: Vec<Sc> = (0..nss).map(|_| self.scalar_canon()).collect();
+        // (Ristretto only: legacy unreduced scalars - in a prime-order group the sum does not depend on how they are read)
+        let unred = g == 1 && self.rng.chance(1, 6);
+        if unred {
+            bump(&mut self.c, "probe:precomputed_with_unreduced_scalars_ristretto");
+        }
+        let ss: Vec<Sc> = (0..nss).map(|_| if unred { self.scalar(true) } else { self.scalar_canon() }).collect();
         let entry = self.rng.below(3) as u8;
         let nd = if entry == 0 { 0 } else { self.rng.below(5) as usize };
-        let ds: Vec<Sc> = (0..nd).map(|_| self.scalar_canon()).collect();
+        let ds: Vec<Sc> = (0..nd).map(|_| if unred { self.scalar(true) } else { self.scalar_canon() }).collect();
         let mut dh: Vec<Option<H>> = (0..nd).map(|_| Some(live[self.rng.below(live.len() as u64) as usize])).collect();
         if entry == 2 && nd > 0 && self.rng.chance(3, 10) {
             let pos = self.rng.below(nd as u64) as usize;
@@ -343,10 +348,14 @@ impl<'a> G<'a> {
                 break;
             }
             let nss = self.rng.below(nst_kept as u64 + 1) as usize;
-            let ss: Vec<Sc> = (0..nss).map(|_| self.scalar_canon()).collect();
+            let unred = g == 1 && self.rng.chance(1, 6);
+            if unred {
+                bump(&mut self.c, "probe:precomputed_with_unreduced_scalars_ristretto");
+            }
+            let ss: Vec<Sc> = (0..nss).map(|_| if unred { self.scalar(true) } else { self.scalar_canon() }).collect();
             let entry = self.rng.below(3) as u8;
             let nd = if entry == 0 { 0 } else { self.rng.below(4) as usize };
-            let ds: Vec<Sc> = (0..nd).map(|_| self.scalar_canon()).collect();
+            let ds: Vec<Sc> = (0..nd).map(|_| if unred { self.scalar(true) } else { self.scalar_canon() }).collect();
             let dh: Vec<Option<H>> = (0..nd).map(|_| Some(live[self.rng.below(live.len() as u64) as usize])).collect();
             let (dst, d) = (self.dst(), self.disp());
             bump(&mut self.c, "probe:precomputation_object_reused");
